@@ -329,6 +329,18 @@ def as_expression(body):
     st = body[0]
     if isinstance(st, ast.Return) and st.value is not None:
         return st.value
+    if isinstance(st, ast.Assign) and len(st.targets) == 1 and isinstance(st.targets[0], ast.Name) and len(body) > 1:
+        # a single-use (or call-free) temporary: substitute it in the rest
+        name = st.targets[0].id
+        rest = body[1:]
+        stored_again = any(isinstance(n, ast.Name) and n.id == name and isinstance(n.ctx, (ast.Store, ast.Del)) for r in rest for n in ast.walk(r))
+        uses = sum(1 for r in rest for n in ast.walk(r) if isinstance(n, ast.Name) and n.id == name and isinstance(n.ctx, ast.Load))
+        if stored_again or (uses > 1 and _contains([st.value], ast.Call) and not _is_trivial_call(st.value)):
+            return None
+        e = as_expression(rest)
+        if e is None:
+            return None
+        return _Subst({name: st.value}).visit(copy.deepcopy(e))
     if isinstance(st, ast.If):
         if st.orelse and len(body) > 1:
             return None
@@ -337,6 +349,11 @@ def as_expression(body):
         if a is not None and b is not None:
             return ast.copy_location(ast.IfExp(test=st.test, body=a, orelse=b), st)
     return None
+
+
+def _is_trivial_call(e):
+    """a call that may be duplicated in the analysed view without changing what the rules conclude (pure numpy constructors)"""
+    return isinstance(e, ast.Call) and ast.unparse(e.func) in ('np.arange', 'len', 'np.asarray', 'np.array', 'np.atleast_1d')
 
 
 def helper_kind(fn):
